@@ -25,16 +25,45 @@ def _is_sym(c):
     return not isinstance(c, int)
 
 
+# Declared domains of symbolic code points: whoever introduces a symbol together with the solver
+# constraint "v is one of alpha" records alpha here; equality / membership tests that the domain
+# already decides are answered without a solver call (sound: the constraint is on the solver).
+_DOM: dict = {}
+
+
+def declare_domain(v, alpha):
+    _DOM[v.get_id()] = (v, frozenset(alpha))
+
+
+def dom(c):
+    if not _is_sym(c):
+        return frozenset([c])
+    d = _DOM.get(c.get_id())
+    return d[1] if d is not None and d[0].eq(c) else None
+
+
 def ceq(a, b) -> bool:
     """code point equality -> Python bool (decides if symbolic)"""
     if not _is_sym(a) and not _is_sym(b):
         return a == b
+    da, db = dom(a), dom(b)
+    if da is not None and db is not None:
+        if da.isdisjoint(db):
+            return False
+        if len(da) == 1 and da == db:
+            return True
     return E.ctx().decide(a == b)
 
 
 def cin(c, cls) -> bool:
     if not _is_sym(c):
         return c in cls
+    d = dom(c)
+    if d is not None:
+        if d.isdisjoint(cls):
+            return False
+        if d <= set(cls):
+            return True
     return E.ctx().decide(z3.Or(*[c == k for k in sorted(cls)])) if cls else False
 
 
@@ -89,11 +118,17 @@ class SymStr:
 
     __rmul__ = __mul__
 
+    # "identity": symbolic strings are used as dictionary keys only where distinct objects are known
+    # to be distinct strings (label names assumed pairwise different).  "length": every string of a
+    # given length hashes alike, so dict / set operations fall back on __eq__, which decides
+    # symbolically (sound for code that de-duplicates or looks up symbolic strings).
+    HASH_MODE = "identity"
+
     def __hash__(self):
+        if SymStr.HASH_MODE == "length":
+            return hash(("SymStr", len(self.c)))
         if self.concrete():
             return hash(self.to_str())
-        # symbolic strings are used as dictionary keys only where distinct objects are known to be
-        # distinct strings (label names assumed pairwise different): identity hash
         return id(self)
 
     def equals(self, o) -> bool:
@@ -225,6 +260,22 @@ class SymStr:
         nw = SymStr.of(new).c
         if not o:
             raise E.ModelGap("replace of empty string")
+        if len(o) == 1 and len(nw) == 1 and count < 0 and not _is_sym(o[0]) and not _is_sym(nw[0]):
+            # character-for-character substitution: no fork, the result character is an if-then-else
+            res = []
+            for c in self.c:
+                if not _is_sym(c):
+                    res.append(nw[0] if c == o[0] else c)
+                    continue
+                d = dom(c)
+                if d is not None and o[0] not in d:
+                    res.append(c)
+                    continue
+                t = z3.If(c == o[0], z3.IntVal(nw[0]), c)
+                if d is not None:
+                    declare_domain(t, (d - {o[0]}) | {nw[0]})
+                res.append(t)
+            return SymStr(res)
         out = []
         i = 0
         done = 0
@@ -268,6 +319,7 @@ def sym_chars(prefix, n, alphabet, ctx):
     for i in range(n):
         v = z3.Int(f"{prefix}{i}")
         ctx.solver.add(z3.Or(*[v == a for a in alpha]))
+        declare_domain(v, alpha)
         out.append(v)
     return out
 
